@@ -204,6 +204,34 @@ def tlc(module, cfg, workdir=None, workers=None, timeout=600, env=None, extra=()
     return r
 
 
+_walker_bin = None
+
+
+def walks(r, max_len=300):
+    """Covering walks over the transitions TLC emitted in result r (tools/walker, Go).
+    Returns (list of dict(init, cf, acts), stats)."""
+    global _walker_bin
+    sd = scratch("walk")
+    if _walker_bin is None:
+        _walker_bin = os.path.join(scratch("walkerbin"), "walker")
+        env = dict(GOENV, GOCACHE=os.environ.get("GOCACHE", "/var/tmp/helios-verif-gocache"))
+        p = subprocess.run(["go", "build", "-o", _walker_bin, "."], cwd=os.path.join(VERIF, "tools", "walker"),
+                           env=env, stdout=subprocess.PIPE, stderr=subprocess.STDOUT, text=True)
+        if p.returncode != 0:
+            raise FrameworkError("cannot build tools/walker:\n" + p.stdout[-2000:])
+    inp = os.path.join(sd, "tlc.out")
+    outp = os.path.join(sd, "walks.ndjson")
+    with open(inp, "w") as fh:
+        fh.write(r.out)
+    p = run([_walker_bin, inp, outp, str(max_len)], timeout=900)
+    stats = json.loads(p.stdout.strip().splitlines()[-1])
+    if stats["covered"] != stats["transitions"]:
+        raise FrameworkError("covering walks traverse %d of %d transitions" % (stats["covered"], stats["transitions"]))
+    res = read_ndjson(outp)
+    shutil.rmtree(sd, ignore_errors=True)
+    return res, stats
+
+
 def write_ndjson(path, events):
     with open(path, "w") as fh:
         for e in events:
